@@ -990,7 +990,8 @@ THEOREMS = ["Dashu.Props.C06." + n for n in [
     "rbig_to_float_correct_when_quotient_exact", "rbig_to_float_nearest_correct_unless_second_tie",
     "fbig_to_float_range_test_regenerated", "fbig_to_f32_range_exit_unobservable", "fbig_to_f64_range_exit_unobservable",
     "fbig_try_to_float_range_exit_unobservable", "fbig_to_float_range_exit_decides", "fbig_to_float_range_overflow_is_required",
-    "fbig_to_float_range_underflow_is_required", "fbig_to_float_range_underflow_directed_counterexample"]]
+    "fbig_to_float_range_underflow_is_required", "fbig_to_float_range_underflow_directed_counterexample",
+    "fbig_to_float_range_underflow_every_mode"]]
 EXTRA_AXIOMS = {}      # bv_decide was NOT needed: encode_correct is an arithmetic proof (propext, Classical.choice, Quot.sound only)
 
 REFINED = [
@@ -1054,7 +1055,10 @@ REFINED = [
     "(fbig_to_float_range_exit_decides); and for EVERY base B >= 2 the decided result is the REQUIRED one: Some(true) => +-inf with the truthful "
     "AddOne/SubOne in every mode (fbig_to_float_range_overflow_is_required), Some(false) => +-0 NoOp in HalfEven/HalfAway/Zero "
     "(fbig_to_float_range_underflow_is_required; the away-from-zero directed modes are the recorded finding: "
-    "fbig_to_float_range_underflow_directed_counterexample)",
+    "fbig_to_float_range_underflow_directed_counterexample); round 7: the Some(false) arm in EVERY mode and base with no mode hypothesis "
+    "(fbig_to_float_range_underflow_every_mode): the required result is +-0 toward zero unless the mode rounds this sign's magnitude up "
+    "(Away; Up for s > 0; Down for s < 0), where it is the least subnormal (bits sign + 1) flagged away from zero, independent of e; the "
+    "returned bits are the required ones IFF the mode is not one of those three cases (closed form of the recorded finding on this arm)",
     "integer/src/convert.rs try_to_unsigned / unsigned_from_words (all word sizes that are multiples of 8), "
     "integer/src/primitive.rs to_sign_magnitude / try_from_sign_magnitude (all widths), from_unsigned round trip",
 ]
@@ -1145,7 +1149,7 @@ LEVEL_NOTE = ("No bv_decide: all theorems depend only on propext/Classical.choic
               "materialises B^-exponent: out of memory; proposed_fixes/c06-round-fract-debug-assert-huge-precision.diff). Repaired in round 6 "
               "(`fixed:` lines): isize overflow of the exponent arithmetic of to_f32/to_f64 (1349a4b), negation of isize::MIN in to_int (7e1bdaf), "
               "usize overflow of precision + den_digits in RBig::to_float (43925c0). For extreme exponents the specification is evaluated at a clamped exponent "
-              "(|e| > 8192 + 2·bit_len: the IEEE result no longer depends on e) — a driver-level device; since round 6 backed by theorems for every base: beyond emax the specification is +-inf in every mode (fbig_to_float_range_overflow_is_required), below (qmin - prec) - bit_len it is +-0 in HalfEven/HalfAway/Zero (fbig_to_float_range_underflow_is_required); for the directed-away modes on the underflow side it remains a device. Observation (not a violation of C06 as worded): to_f32_fast/to_f64_fast can be up to 3 units off "
+              "(|e| > 8192 + 2·bit_len: the IEEE result no longer depends on e) — a driver-level device; since round 6 backed by theorems for every base: beyond emax the specification is +-inf in every mode (fbig_to_float_range_overflow_is_required), below (qmin - prec) - bit_len it is +-0 in HalfEven/HalfAway/Zero (fbig_to_float_range_underflow_is_required); and (round 7) in the directed-away modes (Away; Up on positive, Down on negative values) it is the least subnormal +-2^qmin flagged away from zero, again independent of e (fbig_to_float_range_underflow_every_mode) — so the clamp is justified in every mode and base. Observation (not a violation of C06 as worded): to_f32_fast/to_f64_fast can be up to 3 units off "
               "(doc says 1); TryFrom<UBig> for f32 refuses representable integers above 2^25 (conservative); to_f32_small has the u64::MAX "
               "saturation issue on 32-bit-word builds (not reachable with 64-bit words).")
 TECHNIQUE = "Lean 4 refinement proofs (arithmetic over Nat/Int, generic in the format constants) + kernel-decided counterexamples + differential correspondence model/spec vs real code"
